@@ -27,10 +27,12 @@ def keccakg(repo):
     tree = ast.parse(inspect.getsource(K.Round))
     dicts = [n for n in ast.walk(tree) if isinstance(n, ast.Assign) and isinstance(n.value, ast.Dict)
              and len(n.targets) == 1 and isinstance(n.targets[0], ast.Name) and n.targets[0].id == 'r']
-    assert len(dicts) == 1, 'Round(): expected exactly one dict literal assigned to r'
-    table = ast.literal_eval(dicts[0].value)
-    assert sorted(table) == [(x, y) for x in range(5) for y in range(5)]
-    offs = [table[(i % 5, i // 5)] for i in range(25)]
+    # (when the literal is not inside Round() any more — e.g. hoisted to module level — the offsets are taken from the
+    #  behavioural trace below alone: the amounts the 25 rho/pi calls of a live Round() actually use, in loop order x,y)
+    table = None
+    if len(dicts) == 1:
+        table = ast.literal_eval(dicts[0].value)
+        assert sorted(table) == [(x, y) for x in range(5) for y in range(5)]
     # --- behavioural cross-check: trace rot() and State.__setitem__ during one Round call
     calls, sets = [], []
     orig_rot, orig_set = K.rot, K.State.__setitem__
@@ -46,7 +48,10 @@ def keccakg(repo):
     finally:
         K.rot, K.State.__setitem__ = orig_rot, orig_set
     assert len(calls) == 30 and calls[:5] == [1] * 5, 'Round(): unexpected rot() call pattern'
+    if table is None:
+        table = {(x, y): calls[5 + k] for k, (x, y) in enumerate((x, y) for x in range(5) for y in range(5))}
     assert calls[5:] == [table[(x, y)] for x in range(5) for y in range(5)], 'rho offsets used differ from the dict literal'
+    offs = [table[(i % 5, i // 5)] for i in range(25)]
     # sets: 25 theta writes on A, 25 rho/pi writes on B, 25 chi writes on A, 1 iota write
     assert len(sets) == 76, 'Round(): unexpected number of lane writes'
     bid = sets[25][0]
